@@ -873,42 +873,48 @@ impl HeaderBuilder {
 
     /// Set the algorithm.
     #[must_use]
-    pub fn algorithm(self, alg: iana::Algorithm) -> Self { let mut self_ = self;
+    pub fn algorithm(self, alg: iana::Algorithm) ->« (r:» Self«)
+        ensures r.inner() == (Header { alg: Some(Algorithm::Assigned(alg)), ..self.inner() }),» { let mut self_ = self;
         self_.0.alg = Some(Algorithm::Assigned(alg));
         self_
     }
 
     /// Add a critical header.
     #[must_use]
-    pub fn add_critical(self, param: iana::HeaderParameter) -> Self { let mut self_ = self;
+    pub fn add_critical(self, param: iana::HeaderParameter) ->« (r:» Self«)
+        ensures r.inner() == (Header { crit: r.inner().crit, ..self.inner() }), r.inner().crit@ == self.inner().crit@.push(RegisteredLabel::Assigned(param)),» { let mut self_ = self;
         self_.0.crit.push(RegisteredLabel::Assigned(param));
         self_
     }
 
     /// Add a critical header.
     #[must_use]
-    pub fn add_critical_label(self, label: RegisteredLabel<iana::HeaderParameter>) -> Self { let mut self_ = self;
+    pub fn add_critical_label(self, label: RegisteredLabel<iana::HeaderParameter>) ->« (r:» Self«)
+        ensures r.inner() == (Header { crit: r.inner().crit, ..self.inner() }), r.inner().crit@ == self.inner().crit@.push(label),» { let mut self_ = self;
         self_.0.crit.push(label);
         self_
     }
 
     /// Set the content type to a numeric value.
     #[must_use]
-    pub fn content_format(self, content_type: iana::CoapContentFormat) -> Self { let mut self_ = self;
+    pub fn content_format(self, content_type: iana::CoapContentFormat) ->« (r:» Self«)
+        ensures r.inner() == (Header { content_type: Some(ContentType::Assigned(content_type)), ..self.inner() }),» { let mut self_ = self;
         self_.0.content_type = Some(ContentType::Assigned(content_type));
         self_
     }
 
     /// Set the content type to a text value.
     #[must_use]
-    pub fn content_type(self, content_type: String) -> Self { let mut self_ = self;
+    pub fn content_type(self, content_type: String) ->« (r:» Self«)
+        ensures r.inner() == (Header { content_type: Some(ContentType::Text(content_type)), ..self.inner() }),» { let mut self_ = self;
         self_.0.content_type = Some(ContentType::Text(content_type));
         self_
     }
 
     /// Set the IV, and clear any partial IV already set.
     #[must_use]
-    pub fn iv(self, iv: Vec<u8>) -> Self { let mut self_ = self;
+    pub fn iv(self, iv: Vec<u8>) ->« (r:» Self«)
+        ensures r.inner() == (Header { iv: iv, partial_iv: r.inner().partial_iv, ..self.inner() }), r.inner().partial_iv@.len() == 0,» { let mut self_ = self;
         self_.0.iv = iv;
         self_.0.partial_iv.clear();
         self_
@@ -916,7 +922,8 @@ impl HeaderBuilder {
 
     /// Set the partial IV, and clear any IV already set.
     #[must_use]
-    pub fn partial_iv(self, iv: Vec<u8>) -> Self { let mut self_ = self;
+    pub fn partial_iv(self, iv: Vec<u8>) ->« (r:» Self«)
+        ensures r.inner() == (Header { partial_iv: iv, iv: r.inner().iv, ..self.inner() }), r.inner().iv@.len() == 0,» { let mut self_ = self;
         self_.0.partial_iv = iv;
         self_.0.iv.clear();
         self_
@@ -924,7 +931,8 @@ impl HeaderBuilder {
 
     /// Add a counter signature.
     #[must_use]
-    pub fn add_counter_signature(self, sig: CoseSignature) -> Self { let mut self_ = self;
+    pub fn add_counter_signature(self, sig: CoseSignature) ->« (r:» Self«)
+        ensures r.inner() == (Header { counter_signatures: r.inner().counter_signatures, ..self.inner() }), r.inner().counter_signatures@ == self.inner().counter_signatures@.push(sig),» { let mut self_ = self;
         self_.0.counter_signatures.push(sig);
         self_
     }
@@ -950,7 +958,8 @@ impl HeaderBuilder {
 
     /// Set a header label:value pair where the `label` is text.
     #[must_use]
-    pub fn text_value(self, label: String, value: Value) -> Self { let mut self_ = self;
+    pub fn text_value(self, label: String, value: Value) ->« (r:» Self«)
+        ensures r.inner() == (Header { rest: r.inner().rest, ..self.inner() }), r.inner().rest@ == self.inner().rest@.push((Label::Text(label), value)),» { let mut self_ = self;
         self_.0.rest.push((Label::Text(label), value));
         self_
     }
